@@ -171,6 +171,33 @@ pub fn decimal_ok(printed: &str, p: u128, q: u128, decimals: u32) -> bool {
         Ok(v) => v,
         Err(_) => return false,
     };
+    // a value that is exactly representable in binary (reduced denominator a power of two) is computed
+    // exactly by any sum/len in floating point, and its decimal rendering is then determined: the printed
+    // string must be the correctly rounded one — half-to-even on the exact value, or half-up (both accepted
+    // where they differ). This is what separates 0.88 from 0.87 for a mean of exactly 0.875.
+    {
+        fn gcd(a: u128, b: u128) -> u128 {
+            if b == 0 {
+                a
+            } else {
+                gcd(b, a % b)
+            }
+        }
+        let g = gcd(p, q).max(1);
+        let (pr, qr) = (p / g, q / g);
+        if qr.is_power_of_two() && qr <= (1u128 << 40) && pr < (1u128 << 52) {
+            let exact = pr as f64 / qr as f64;
+            let d = decimals as usize;
+            let even = format!("{:.*}", d, exact);
+            // half-up: add half a unit in integer arithmetic on the scaled value
+            let scale = 10u128.pow(decimals);
+            let up_scaled = (2 * pr * scale + qr) / (2 * qr);
+            let up = up_scaled as f64 / scale as f64;
+            let pv = printed.parse::<f64>().ok();
+            let ev = even.parse::<f64>().ok();
+            return pv.is_some() && (pv == ev || (pv.unwrap() - up).abs() < 0.1 / scale as f64);
+        }
+    }
     let exact = p as f64 / q as f64;
     let half = 0.5 * 10f64.powi(-(decimals as i32));
     (v - exact).abs() <= half * 1.000001 + exact.abs() * 1e-12 + 1e-12
